@@ -98,7 +98,7 @@ def check(ctx):
     gf = repo.fn("adverbs:get_adverb_fn")
     branches = {}
     for nd in walk_local(gf.node):
-        if isinstance(nd, ast.If) and isinstance(nd.test, ast.Compare) and isinstance(nd.test.comparators[0], ast.Constant):
+        if isinstance(nd, ast.If) and isinstance(nd.test, ast.Compare) and isinstance(nd.test.comparators[0], ast.Constant) and isinstance(nd.test.comparators[0].value, str):
             branches[nd.test.comparators[0].value] = nd
     ctx.instance("C02-R2", "types:is_adverb", f"{len(syms_a)} symbols")
     ctx.ob("C02-R2", "types:get_adverb_arity", f"is_adverb and get_adverb_arity know the same symbols ({len(syms_a)})", syms_a == syms_b and len(syms_a) >= 11, node=ga.node, construct="adverb arity table symbols",
@@ -111,7 +111,12 @@ def check(ctx):
         rets = [r for s in br.body for r in walk_local(s) if isinstance(r, ast.Return)]
         for r in rets:
             v = r.value
-            alts = [("dyadic", v.body), ("monadic", v.orelse)] if isinstance(v, ast.IfExp) and "arity == 2" in src(v.test) else [("any", v)]
+            if isinstance(v, ast.IfExp) and "arity == 2" in src(v.test):
+                alts = [("dyadic", v.body), ("monadic", v.orelse)]
+            else:
+                # the same choice written as a statement: a dominating `arity == 2` fact decides the use
+                pol = [p for e_, p in atoms_at(r, gf.node) if isinstance(e_, ast.Compare) and src(e_).endswith("arity == 2")]
+                alts = [(("dyadic" if pol[0] else "monadic") if pol else "any", v)]
             for use, e in alts:
                 params = None
                 if isinstance(e, ast.Lambda):
